@@ -344,6 +344,8 @@ def ord11(P, R, L):
     R.analysed(b)
     pops = [c for c in b.calls_to("std::collections::VecDeque::pop_front") if not b.is_cleanup(c.bb)]
     gres = [c for c in b.calls_to("writers::Writer::get_operation_result") if not b.is_cleanup(c.bb)]
+    from . import common as K
+    gres += K.sync_closure_sites(P, b, {"writers::Writer::get_operation_result"})     # `is_complete.then(|| w.get_operation_result()..)`
     bg = [c for c in b.calls_to("db::DB::build_group_commit_batch") if not b.is_cleanup(c.bb)]
     if not pops or not gres or not bg:
         return R.missing_anchor("ORD-11", "pop_front/get_operation_result/build_group_commit_batch in apply_changes")
